@@ -294,6 +294,11 @@ class Ctx:
         for name, p in self.parts.items():
             print(f'   part {name}: {p}')
         if self.viol:
+            by = {}
+            for part, cell, v in self.viol:
+                k = f'{part}:{cell[0] if isinstance(cell, (list, tuple)) and cell else cell}'[:60]
+                by[k] = by.get(k, 0) + 1
+            print('   violations by part:first cell key =', dict(sorted(by.items())))
             for path, part, v in replay_paths:
                 print(f'VIOLATION property={self.pid} replay={path}')
                 print(f'   [{part}] {v.get("msg")}')
